@@ -497,7 +497,8 @@ def run(prop, tier):
     # 1. the implementation-shaped model refines the property layer (exhaustive, small constants)
     quick_mc = {"C01": ["MC_q_c01.cfg"], "C04": ["MC_q_c04.cfg"], "C05": ["MC_q_c05.cfg", "MC_live.cfg"],
                 "C09": ["MC_q_c09a.cfg", "MC_q_c09b.cfg"]}
-    mc = quick_mc[prop] if tier == "quick" else ["MC_quick.cfg", "MC_small.cfg", "MC_live.cfg"] + quick_mc[prop]
+    mc = quick_mc[prop] if tier == "quick" else sorted(set(["MC_quick.cfg", "MC_small.cfg", "MC_live.cfg", "MC_2p_fl.cfg",
+                                                          "MC_2p_nofl.cfg"] + quick_mc[prop]))
     for cfg in ([] if vlib.SKIP_MC else mc):
         r = vlib.model_check(SPECD, "BackgroundQueue", cfg, timeout=7200, heap="24g" if tier == "thorough" else "8g")
         chk.add_model("BackgroundQueue/" + cfg, r)
